@@ -39,8 +39,8 @@ func c11Tags(r *Report) {
 			r.Unres(k, d, "package not found")
 			continue
 		}
-		c, ok := p.Types.Scope().Lookup(t.Name).(*types.Const)
-		if !ok || c.Val().Kind() != constant.String {
+		c := lookupConst(p, t.Name)
+		if c == nil || c.Val().Kind() != constant.String {
 			r.Unres(k, d, "constant not found (renamed? the rule table is keyed by the constant object)")
 			continue
 		}
